@@ -163,6 +163,14 @@ def parse_real(model):
 
 
 def root_class(m):
+    base = _root_class(m)
+    names = [n[0] for n in tg.nodes(m)][1:]
+    named = [x for x in names if x is not None]
+    # two nodes with one name make every look-up by name ambiguous: a class of its own
+    return base + ", duplicate node names" if len(set(named)) != len(named) else base
+
+
+def _root_class(m):
     k = len(m[2])
     internal = sum(1 for c in m[2] if c[2])
     if k >= 3:
